@@ -1,6 +1,7 @@
 package main
 
 import (
+	"go/types"
 	"strings"
 )
 
@@ -12,6 +13,32 @@ type boltDB struct {
 	path    string
 	buckets map[string]map[string][]value
 	open    bool
+	// exported configuration fields of bbolt.DB that client code assigns (NoSync, ...), by name
+	fields map[string]*value
+}
+
+// fieldCell is the storage behind db.<name> for client code that reads or sets a
+// configuration field of an open *bbolt.DB.
+func (db *boltDB) fieldCell(name string, zeroV value) *value {
+	if db.fields == nil {
+		db.fields = map[string]*value{}
+	}
+	c := db.fields[name]
+	if c == nil {
+		v := zeroV
+		c = &v
+		db.fields[name] = c
+	}
+	return c
+}
+
+func (db *boltDB) flag(name string) bool {
+	if c := db.fields[name]; c != nil {
+		if t, ok := (*c).(*Term); ok {
+			return t == True
+		}
+	}
+	return false
 }
 
 type boltTx struct {
@@ -89,6 +116,19 @@ func init() {
 			m.ev("bolt-open", path, 0, 0, true, "")
 		}
 		db.open = true
+		db.fields = nil
+		// *bbolt.Options: the switches that weaken durability are carried over to the handle
+		if op, ok := a[2].(*value); ok && op != nil {
+			if st, ok := (*op).(structure); ok {
+				if ot := fr.m.namedStruct("go.etcd.io/bbolt", "Options"); ot != nil {
+					for i := 0; i < ot.NumFields(); i++ {
+						if n := ot.Field(i).Name(); n == "NoSync" || n == "NoGrowSync" || n == "NoFreelistSync" || n == "ReadOnly" {
+							*db.fieldCell(n, False) = st[i]
+						}
+					}
+				}
+			}
+		}
 		var v value = db
 		return tuple{&v, iface{}}
 	})
@@ -96,6 +136,14 @@ func init() {
 		db := boltObj(fr.m, a[0], "DB").(*boltDB)
 		db.open = false
 		fr.m.ev("bolt-close", db.path, 0, 0, true, "")
+		return iface{}
+	})
+	add("(*go.etcd.io/bbolt.DB).Sync", func(fr *frame, a []value) value {
+		db := boltObj(fr.m, a[0], "DB").(*boltDB)
+		if fr.m.osFault("bolt-sync", db.path) {
+			return fr.m.mkError("injected bbolt sync failure")
+		}
+		fr.m.ev("bolt-sync", db.path, 0, 0, true, "")
 		return iface{}
 	})
 	add("(*go.etcd.io/bbolt.DB).Begin", func(fr *frame, a []value) value {
@@ -149,7 +197,12 @@ func init() {
 				names = append(names, "put:"+p.bucket+"/"+p.key)
 			}
 		}
-		m.ev("bolt-commit", tx.db.path, 0, 0, true, "["+strings.Join(names, " ")+"]")
+		note := "[" + strings.Join(names, " ") + "]"
+		if tx.db.flag("NoSync") {
+			// committed to the page cache only: bbolt skips its fdatasync calls
+			note += " NOSYNC"
+		}
+		m.ev("bolt-commit", tx.db.path, 0, 0, true, note)
 		return iface{}
 	})
 	add("(*go.etcd.io/bbolt.Tx).CreateBucket", func(fr *frame, a []value) value {
@@ -221,4 +274,18 @@ func init() {
 		b.tx.puts = append(b.tx.puts, boltPut{bucket: b.name, key: concreteKey(m, a[1]), del: true})
 		return iface{}
 	})
+}
+
+// namedStruct returns the struct type behind pkg.name of an imported package (nil when absent).
+func (m *Machine) namedStruct(pkg, name string) *types.Struct {
+	p := m.prog.ImportedPackage(pkg)
+	if p == nil {
+		return nil
+	}
+	t := p.Type(name)
+	if t == nil {
+		return nil
+	}
+	st, _ := t.Type().Underlying().(*types.Struct)
+	return st
 }
